@@ -42,6 +42,17 @@ class TLCResult:
         return self.exit == 0 and not self.violations and not self.error
 
 
+def _die_with_parent() -> None:
+    """Child JVMs must not outlive a killed check (orphans once burned every core for an hour)."""
+    try:
+        import ctypes
+        import signal
+
+        ctypes.CDLL("libc.so.6").prctl(1, signal.SIGKILL)   # PR_SET_PDEATHSIG
+    except Exception:
+        pass
+
+
 def scratch(tag: str) -> str:
     d = os.path.join(WORK, "%s-%d-%d" % (tag, os.getpid(), int(time.time() * 1000) % 10 ** 9))
     os.makedirs(d, exist_ok=True)
@@ -137,7 +148,8 @@ def run(
         e.update(env or {})
         t0 = time.time()
         try:
-            p = subprocess.run(cmd, cwd=SPEC, env=e, stdout=subprocess.PIPE, stderr=subprocess.STDOUT, timeout=timeout, text=True, errors="replace")
+            p = subprocess.run(cmd, cwd=SPEC, env=e, stdout=subprocess.PIPE, stderr=subprocess.STDOUT, timeout=timeout, text=True, errors="replace",
+                               preexec_fn=_die_with_parent)
         except subprocess.TimeoutExpired as ex:
             raise MachineryError("TLC timeout after %ds on %s" % (timeout, module)) from ex
         res = parse(p.stdout)
